@@ -227,7 +227,7 @@ V("O11.1", ["C11", "C02", "C05"], "c11_control", expect_verified=10,
 # ---------------------------------------------------------------------------------------------
 # C09 names
 # ---------------------------------------------------------------------------------------------
-V("O09.1w", ["C09", "C17"], "c09_names", expect_verified=20,
+V("O09.1w", ["C09", "C17", "C02"], "c09_names", expect_verified=20,
   functions=["Context::new", "Context::max_size", "SymbolTable::new", "SymbolTable::new_context", "SymbolTable::leave_context", "SymbolTable::current_context", "SymbolTable::in_function", "SymbolTable::resolve", "SymbolTable::define", "SymbolTable::enter_scope", "SymbolTable::leave_scope", "SymbolTable::reset_to_global",
              "lemmas over the contracts of Context::define / resolve: lemma_inner_scope, lemma_declare_takes_over, lemma_declare_frames_others, lemma_block_roundtrip, lemma_table_block_roundtrip, lemma_slot_in_range"],
   desc="real struct definitions (R9) and verbatim bodies: declarations go to the innermost scope of the innermost context; a block opens / closes exactly one scope; lookup tries the current context, then - only inside a function - the GLOBAL context, never an enclosing function's; a function's context is pushed / popped as a whole; reset keeps only the outermost global scope. Lemmas (all sizes) over the view contracts of Context::define / resolve: shadowing, latest declaration wins, other names unaffected, block end forgets, slots in range")
@@ -239,7 +239,7 @@ K("O09.len", ["C09", "C05"], "symbols", "c09_total_len", level="bounded", bound=
 K("O09.res", ["C09"], "symbols", "c09_resolve_two_scopes", level="bounded", bound="two open scopes of 0..=2 names each over {a, b}", functions=["Context::resolve", "Context::total_len"],
   desc="innermost scope first, last declaration of the name within a scope, slot == number of names declared before it in the context; absent name -> None")
 for _n in (1, 2, 3):
-  K("O09.1k.%d" % _n, ["C09"], "symbols", "c09_table_resolve_twin_%d" % _n, level="bounded", bound="%d context(s) (global, enclosing function, current function), one scope of 0..=1 names over {a, b} each" % _n, functions=["SymbolTable::resolve", "Context::resolve"],
+  K("O09.1k.%d" % _n, ["C09", "C02"], "symbols", "c09_table_resolve_twin_%d" % _n, level="bounded", bound="%d context(s) (global, enclosing function, current function), one scope of 0..=1 names over {a, b} each" % _n, functions=["SymbolTable::resolve", "Context::resolve"],
     desc="bounded twin of the table-level lookup contract on the real code whatever its syntactic form: current context, then the global one, never an enclosing function's (added after seeded change C09-2 turned the Verus unit undecided)")
 K("O09.res3", ["C09"], "symbols", "c09_resolve_three_scopes", level="bounded", tier="thorough", bound="three open scopes of 0..=2 names each over {a, b}", functions=["Context::resolve", "Context::total_len"], timeout=1500,
   desc="thorough tier: O09.res for three scopes")
